@@ -213,6 +213,7 @@ func runC16(c *an.Ctx) {
 		})
 	}
 	c.MinCount("R2", "calls of cutting scanners", nCut, 1)
+	c16ParsedIsApplied(c)
 	// unclosed quote in an action list
 	if pa := c.Fn("R2", "internal/seclang.parseActions"); pa != nil {
 		errIdx := an.ErrorIndex(pa.Signature)
@@ -488,4 +489,127 @@ func loadsParserField(v ssa.Value) bool {
 	}
 	n, ok := t.(*types.Named)
 	return ok && n.Obj().Name() == "Parser" && n.Obj().Pkg() != nil && strings.HasSuffix(n.Obj().Pkg().Path(), "/seclang")
+}
+
+// c16ParsedIsApplied: a number/enum parsed from directive or action text takes effect or is refused.  For
+// every parse call (strconv.Atoi/ParseInt/ParseUint/ParseBool/ParseFloat, types.Parse*) in the action Inits
+// and the directive handlers: on every path from the call to a successful return (nil error) the parsed value
+// is used by something other than a comparison (stored, passed on).  A path that only tests the value and
+// then succeeds means some accepted texts (status:200 ...) are silently ignored.
+func c16ParsedIsApplied(c *an.Ctx) {
+	n := 0
+	seen := map[string]int{}
+	for _, fn := range c.P.ModFuncs {
+		rp := relPkg(fn)
+		name := an.RelName(fn)
+		inScope := rp == "internal/seclang" && strings.HasPrefix(fn.Name(), "directive") || rp == "internal/actions" && strings.HasSuffix(name, ".Init")
+		if !inScope || fn.Parent() != nil {
+			continue
+		}
+		ei := an.ErrorIndex(fn.Signature)
+		if ei < 0 {
+			continue
+		}
+		an.Instrs(fn, func(in ssa.Instruction) {
+			call, ok := in.(*ssa.Call)
+			if !ok || call.Call.StaticCallee() == nil {
+				return
+			}
+			callee := call.Call.StaticCallee()
+			isParse := false
+			if callee.Pkg != nil {
+				switch callee.Pkg.Pkg.Path() {
+				case "strconv":
+					isParse = callee.Name() == "Atoi" || strings.HasPrefix(callee.Name(), "Parse")
+				default:
+					isParse = strings.HasSuffix(callee.Pkg.Pkg.Path(), "/types") && strings.HasPrefix(callee.Name(), "Parse")
+				}
+			}
+			if !isParse || an.ErrorIndex(callee.Signature) != 1 {
+				return
+			}
+			var val ssa.Value
+			for _, r := range *call.Referrers() {
+				if ex, ok := r.(*ssa.Extract); ok && ex.Index == 0 {
+					val = ex
+				}
+			}
+			n++
+			c.FuncsAnalysed[fn] = true
+			k := fmt.Sprintf("value parsed by %s.%s is applied or refused in %s", callee.Pkg.Pkg.Name(), callee.Name(), name)
+			seen[k]++
+			key := k
+			if seen[k] > 1 {
+				key += fmt.Sprintf("#%d", seen[k])
+			}
+			if val == nil {
+				c.Ok("R2", key, in.Pos(), "only the error is of interest (syntax validation)")
+				return
+			}
+			// uses other than comparisons, through conversions and phis
+			uses := map[ssa.Instruction]bool{}
+			var mark func(v ssa.Value, d int)
+			seenV := map[ssa.Value]bool{}
+			mark = func(v ssa.Value, d int) {
+				if seenV[v] || d > 4 || v.Referrers() == nil {
+					return
+				}
+				seenV[v] = true
+				for _, r := range *v.Referrers() {
+					switch x := r.(type) {
+					case *ssa.BinOp:
+						switch x.Op {
+						case token.EQL, token.NEQ, token.LSS, token.LEQ, token.GTR, token.GEQ:
+							// a test against a constant only validates the value; a test against other data
+							// (a rule id, a configured limit) is the value doing its job
+							_, cx := x.X.(*ssa.Const)
+							_, cy := x.Y.(*ssa.Const)
+							if !cx && !cy {
+								uses[x] = true
+							}
+							continue
+						}
+						mark(x, d+1)
+					case *ssa.Convert:
+						mark(x, d+1)
+					case *ssa.ChangeType:
+						mark(x, d+1)
+					case *ssa.Phi:
+						mark(x, d+1)
+					case *ssa.MakeInterface:
+						mark(x, d+1)
+						uses[x] = true
+					default:
+						uses[r] = true
+					}
+				}
+			}
+			mark(val, 0)
+			errE := an.Expr(call) + "#1"
+			w := an.FindPath(an.PathQuery{Fn: fn, After: in,
+				Stop: func(x ssa.Instruction) bool { return uses[x] },
+				Target: func(x ssa.Instruction) bool {
+					r, ok := x.(*ssa.Return)
+					return ok && an.ReturnMayBeNilError(r, ei)
+				},
+				PruneEdge: func(b *ssa.BasicBlock, si int) bool {
+					ifi, ok := b.Instrs[len(b.Instrs)-1].(*ssa.If)
+					if !ok {
+						return false
+					}
+					for _, a := range an.CondAtoms(ifi.Cond, si == 0) {
+						if a.L == errE && a.Op == "!=" && a.R == "nil" {
+							return true // the parse failed: not a "parsed value"
+						}
+					}
+					return false
+				}})
+			if w != nil {
+				c.Bad("R2", key, w.Target.Pos(), "the text parsed successfully, yet a path returns success without the value having been stored or passed on (it is only compared): some accepted values are silently ignored instead of being applied or rejected", c.P.TrailString(w)...)
+			} else {
+				c.Ok("R2", key, in.Pos(), "every successful path uses the parsed value")
+			}
+		})
+	}
+	c.MinCount("R2", "values parsed from directive/action text", n, 15)
 }
